@@ -84,10 +84,10 @@ type ttOp struct {
 }
 
 type slotState struct {
-	used   bool
-	hash   board.ZobristHash
-	w, q   int
-	val    int
+	used bool
+	hash board.ZobristHash
+	w, q int
+	val  int
 }
 
 func ttModel(mask uint64) porcupine.Model {
@@ -466,11 +466,11 @@ func runC17(c *fw.Ctx, cs fw.Case) {
 
 func init() {
 	fw.Register(&fw.Monitor{
-		ID:        "C17",
-		Level:     "exploration",
-		RaceKinds: map[string]bool{"lin": true, "stress": true, "fill": true, "search": true},
-		Technique: "race detector + offline linearizability checking (porcupine) of recorded Read/Write histories against a sequential slot model, tagged payloads for tuple integrity, quiescent-point checks of the fill counter, hook-point perturbation of the CAS loop",
-		Rule: "histories: tables of 1-8 slots, 2-6 clients x 30-90 operations (55% Write / 45% Read) over 1-4 hashes per slot, call/return stamped from one atomic counter, checked per slot with porcupine (timeout => inconclusive); stress: 4-16 clients x 500-3500 operations with tuple-integrity, final-replacement-value and fill-count checks; fill: every slot of 2^10..2^14-slot tables written by 8-16 clients, Used() must be exactly 1; search: 2-5 concurrent alpha-beta searches sharing a table must return the table-less value; the same histories run in the plain build (faster, more interleavings) and the -race build; yields/sleeps injected at tt.read / tt.write.loaded / tt.write.swapped; distinct = distinct histories by (event count, accepted stores, hits)",
+		ID:          "C17",
+		Level:       "exploration",
+		RaceKinds:   map[string]bool{"lin": true, "stress": true, "fill": true, "search": true},
+		Technique:   "race detector + offline linearizability checking (porcupine) of recorded Read/Write histories against a sequential slot model, tagged payloads for tuple integrity, quiescent-point checks of the fill counter, hook-point perturbation of the CAS loop",
+		Rule:        "histories: tables of 1-8 slots, 2-6 clients x 30-90 operations (55% Write / 45% Read) over 1-4 hashes per slot, call/return stamped from one atomic counter, checked per slot with porcupine (timeout => inconclusive); stress: 4-16 clients x 500-3500 operations with tuple-integrity, final-replacement-value and fill-count checks; fill: every slot of 2^10..2^14-slot tables written by 8-16 clients, Used() must be exactly 1; search: 2-5 concurrent alpha-beta searches sharing a table must return the table-less value; the same histories run in the plain build (faster, more interleavings) and the -race build; yields/sleeps injected at tt.read / tt.write.loaded / tt.write.swapped; distinct = distinct histories by (event count, accepted stores, hits)",
 		Assumptions: []string{"sequential model: a slot holds nothing or (hash, payload, value); Write stores iff value(new) >= value(current) and reports it; Read(h) returns the payload iff the slot's hash is h", "porcupine v1.3.0"},
 		Timeout:     minutes(15, 120),
 		Cases: func(tier string, seed int64) []fw.Case {
